@@ -1,5 +1,6 @@
 # configuration of ./check C06 (see checklib/props.py)
-PROP = {'level': 'proof',
+PROP = {'shrink_rounds': 8, 'shrink_candidates': 48,
+ 'level': 'proof',
  'rule': 'Sequences of 2..14 steps on the real PacketServer with a fake PacketConn: datagrams from four peers (two with secrets, one with an empty secret, one for which the secret source fails): '
          'authentic Access-/Accounting-/Status requests, forged Accounting/CoA requests, reply codes, authentic-but-unparsable and short datagrams; duplicates of (peer, identifier) while the '
          'handler runs and after it returned, the same identifier from another peer or on another Serve call; handlers complete in random order and reply with reply / request / unknown codes; '
